@@ -46,22 +46,11 @@ STUBS = c05.STUBS + c06.STUBS + [
     "trait_types.TraitListObject -> class ATLO(TraitListObject, ListModel) (MRO insertion)"]
 
 
-class ATLO(tlo.TraitListObject, ListModel):
-    pass
+from props._owners import ATLO, list_env, PyValidated
+import props._owners as owners
 
-
-@contextlib.contextmanager
-def list_env():
-    old_tlo = tt.TraitListObject
-    old_info = tt.List.full_info
-    tt.TraitListObject = ATLO
-    tt.List.full_info = lambda self, object, name, value: "a list (description stubbed)"
-    try:
-        with c05.sym_env():
-            yield
-    finally:
-        tt.TraitListObject = old_tlo
-        tt.List.full_info = old_info
+dict_factory = owners.dict_factory()
+set_factory = owners.set_factory()
 
 
 def selftest(tier):
@@ -168,62 +157,6 @@ def list_harness(op, n, m, mask=None):
         return {"exc": exc, "after": after, "log": {k_: len(v) for k_, v in log.items()}}
 
     return harness
-
-
-# ---- Dict / Set with Python-validated inner traits (symbolic keys / values / elements) ------------
-class PyValidated(TraitType):
-    """inner trait whose validate() is Python code, so proxies pass through CTrait.validate unharmed"""
-
-    def __init__(self, fn, **metadata):
-        self.fn = fn
-        super().__init__(**metadata)
-
-    def validate(self, object, name, value):
-        try:
-            return self.fn(value)
-        except TraitError:
-            self.error(object, name, value)
-
-    def full_info(self, object, name, value):
-        return "a validated value"
-
-
-def dict_factory(ex, keys, vals, kv, vv, notifier):
-    class Owner(HasTraits):
-        d = Dict(PyValidated(kv), PyValidated(vv))
-
-    o = Owner()
-    o.d = dict(zip(keys, vals))
-    other = {"d": []}
-    o.on_trait_change(lambda obj, name, old, new: notifier(obj.d, new.removed, new.added, new.changed), "d_items")
-    o.on_trait_change(lambda obj, name, old, new: other["d"].append(name), "d")
-    d = o.d
-
-    def extra(ex, exc_t, td):
-        ex.check(o.d is d, "the trait still holds the same TraitDictObject")
-        ex.check(other["d"] == [], "no whole-value notification for an in-place operation")
-
-    d._keepalive = o
-    return d, extra
-
-
-def set_factory(ex, elems, val, notifier):
-    class Owner(HasTraits):
-        s = Set(PyValidated(val))
-
-    o = Owner()
-    o.s = set(elems)
-    other = {"s": []}
-    o.on_trait_change(lambda obj, name, old, new: notifier(obj.s, new.removed, new.added), "s_items")
-    o.on_trait_change(lambda obj, name, old, new: other["s"].append(name), "s")
-    st = o.s
-
-    def extra(ex, exc_t, ts):
-        ex.check(o.s is st, "the trait still holds the same TraitSetObject")
-        ex.check(other["s"] == [], "no whole-value notification for an in-place operation")
-
-    st._keepalive = o
-    return st, extra
 
 
 # ---- nested containers: bounded two-step histories over concrete items --------------------------
@@ -345,7 +278,7 @@ def obligations(tier, build):
                         leverage="aliasing and validity of symbolic keys/values", max_paths=50000))
     shapes = [(1,), (2,), (1, 1)] if tier == "quick" else [(1,), (2,), (3,), (1, 1), (2, 1)]
     for s in range(S + 1):
-        for vname in ("reject", "coerce"):
+        for vname in ("reject", "coerce", "typed"):
             for op in c07.OPS1:
                 obs.append(Obligation("set/%s/s=%d/%s" % (op, s, vname),
                                       c07.make_harness(op, s, (), (), vname, factory=set_factory), env=c06.sym_env,
